@@ -89,8 +89,10 @@ func LogClose(closer io.Closer) error {
 func PipeData(down io.ReadWriteCloser, up io.ReadWriteCloser) error {
 	log.Debugf("Piping data %v <-> %v", down, up)
 
-	downPipe := make(chan error, 0)
-	upPipe := make(chan error, 0)
+	// One slot each: only the first result is consumed below, the copier that finishes
+	// second must still be able to deliver its result and exit.
+	downPipe := make(chan error, 1)
+	upPipe := make(chan error, 1)
 
 	if os.Getenv("SOCKETACE_PIPE_DEBUG") == "1" {
 		go pipeDebugData(downPipe, down, up)
